@@ -1,4 +1,4 @@
-\* GEN_v6 -- generated by mkcfg.py; IPv6 listener/client/peers and REQUESTED-ADDRESS-FAMILY
+\* GEN_v6 -- generated by mkcfg.py; IPv6 listener/client/peers and REQUESTED-ADDRESS-FAMILY, vetoed IPv6 peer
 SPECIFICATION Spec
 VIEW View
 CONSTANTS
@@ -21,7 +21,7 @@ CONSTANTS
   PermTO = 2
   ChanTO = 3
   MaxLife = 3600
-  Denied <- MCNoDenied
+  Denied <- MCDeniedV6
   Toks = {"none"}
   ResvTO = 30
   QuotaDenied = {}
